@@ -13,7 +13,7 @@ Require Import Zrs.gen.Generated Zrs.model.Headers Zrs.model.BlockDec Zrs.model.
 Require Import Zrs.proofs.C03_HufTable Zrs.proofs.C13_Canonical Zrs.proofs.C13_CanonCode Zrs.proofs.C13_LitAll Zrs.proofs.C13_Direct.
 Require Import Zrs.model.SeqEnc Zrs.model.FseEnc Zrs.model.WeightEnc Zrs.proofs.C12_SeqStream Zrs.proofs.C12_Desc Zrs.proofs.C13_WeightStream Zrs.proofs.C13_WeightDesc Zrs.proofs.C12_AvoidBits Zrs.proofs.C13_WeightTable Zrs.proofs.C13_WeightFinal.
 Require Import Zrs.model.FseNorm Zrs.proofs.C13_WeightModel.
-Require Import Zrs.proofs.C13_EncCanon Zrs.proofs.C13_Agree Zrs.proofs.C13_Accepted Zrs.proofs.C13_EncWeights.
+Require Import Zrs.proofs.C13_EncCanon Zrs.proofs.C13_Agree Zrs.proofs.C13_Accepted Zrs.proofs.C13_EncWeights Zrs.proofs.C13_WeightTotal.
 Open Scope Z_scope.
 
 Theorem C13_shape_valid : forall n, 2 <= n <= 256 ->
@@ -250,6 +250,14 @@ Theorem C13_unused_symbols_get_no_code : forall W nmax codes, Forall (fun w => 0
 Proof. exact enc_codes_unused. Qed.
 Theorem C13_shape_contains_weight_one : forall n sh, 2 <= n <= 256 -> shape n = ROk sh -> In 1 sh.
 Proof. exact shape_has_one. Qed.
+
+(** the normaliser (limit 6, avoid-zero-bits) is total on the histogram of any weights up to 11 and the result has a
+    table description *)
+Theorem C13_weight_description_exists : forall data,
+  (2 <= length data)%nat -> Forall (fun w => 0 <= w <= 11) data -> 1 <= zmax_list data ->
+  exists al probs d, norm_counts (weight_hist data) 6 true = ROk (al, probs) /\ desc_bytes al probs = Some d.
+Proof. exact weight_description_exists. Qed.
+Print Assumptions C13_weight_description_exists.
 
 Print Assumptions C13_written_weights_are_the_weights.
 Print Assumptions C13_unused_symbols_get_no_code.
